@@ -24,7 +24,7 @@ inductive PopKindR (s : State) (mb : Nat) (s' : State) (out : PopOut) : Prop
   | newData (f0 : Frame) (s1 : State) (hq : s.retransQ = []) (hlt : s.writeOffset < s.reliableOffset)
       (hok : PopNewOk s s1 f0) (hlen : f0.data.length ≤ s.reliableOffset - s.writeOffset)
       (hbuf : ∀ nf, s.nextFrame = some nf → s1.dataForWriting = s.dataForWriting ∧ f0.data ++ nfData s1 = nf.data)
-      (fin : Bool)
+      (fin : Bool) (hfin : fin = false)   -- a stream that is being reset never gets a FIN on new data (a7958da)
       (h1 : s' = { s1 with writeOffset := s.writeOffset + f0.data.length, finSent := s.finSent || fin })
       (h2 : out.frame = some { f0 with fin := fin })
 
@@ -98,10 +98,11 @@ theorem popInner_ra (s : State) (mb win : Nat) (nb : Bool) (hra : RA s) (hmb : m
             have hfw : s1.finishedWriting = s.finishedWriting := by rw [hs1]
             have hfs : s1.finSent = s.finSent := by rw [hs1]
             have hwo : s1.writeOffset = s.writeOffset := by rw [hs1]
-            refine .newData f0 s1 hq hlt hok (by omega) hbuf (s.finishedWriting && s1.dataForWriting.isEmpty && s1.nextFrame.isNone && !s.finSent) ?_ ?_
-            · rw [hfw, hfs, hwo]
-              cases hc : (s.finishedWriting && s1.dataForWriting.isEmpty && s1.nextFrame.isNone && !s.finSent) <;> simp
-            · rw [hfw, hfs]
+            have hrs : s1.resetErr.isNone = false := by
+              rw [hs1]; cases hre : s.resetErr <;> simp_all
+            refine .newData f0 s1 hq hlt hok (by omega) hbuf false rfl ?_ ?_
+            · rw [hwo, hrs]; simp [hfs]
+            · rw [hrs]; simp
 
 def DataFaithful (W : Bytes) (f : Frame) : Prop := f.data <+: W.drop f.offset
 
@@ -631,7 +632,7 @@ theorem rinv_pop {s : State} (h : RInv s) (mb w : Nat) (nb : Bool) (hmb : mb ≤
       | retransWhole g rest hq h1 h2 => rw [pop_some h2, h1]; exact rinv_retransWhole h hq
       | retransSplit g rest hq h1 h2 => rw [pop_some h2, h1]; exact rinv_retransSplit h _ hq
       | finOnly h1 h2 => rw [pop_some h2, h1]; exact rinv_finOnly h
-      | newData f0 s1 hq hlt hok hlen hbuf fin h1 h2 => rw [pop_some h2, h1]; exact rinv_newData_ra h hra hlt hok hlen hbuf fin
+      | newData f0 s1 hq hlt hok hlen hbuf fin hfin h1 h2 => rw [pop_some h2, h1]; exact rinv_newData_ra h hra hlt hok hlen hbuf fin
     · have := popInner_quiet s mb w nb hl hra
       have h2 : (popInner s mb w nb).2.frame = none := by rw [this]
       rw [pop_none h2, this]; exact h
@@ -710,7 +711,7 @@ theorem emitted_pop_r {s : State} (h : RInv s) (mb w : Nat) (nb : Bool) (hmb : m
       | retransWhole g rest hq h1 h2 => exact ⟨[g], by rw [pop_some h2, h1]; rfl⟩
       | retransSplit g rest hq h1 h2 => exact ⟨_, by rw [pop_some h2, h1]; rfl⟩
       | finOnly h1 h2 => exact ⟨_, by rw [pop_some h2, h1]; rfl⟩
-      | newData f0 s1 hq hlt hok hlen hbuf fin h1 h2 =>
+      | newData f0 s1 hq hlt hok hlen hbuf fin hfin h1 h2 =>
         obtain ⟨nf', dfw', sig', hs1, _⟩ := hok
         subst hs1
         exact ⟨_, by rw [pop_some h2, h1]; rfl⟩
